@@ -9,8 +9,10 @@ Three implementations of one interface (`Impl`) run under one generic `step`:
 * `memImpl c` — a transcription of `db/memory` (current tree): batch = ordered `writes` list +
   `writeMap`, `DeleteRange` on a batch materialised at call time through an iterator over a flushed
   copy, iterator = key list + `curInd` integer arithmetic + `positioned`.
-  `c.cbUnlocked` says whether `Get` runs its callback after releasing the store lock (today it does
-  not: a callback that writes to the store deadlocks); the harness probes it.
+  `c.cbUnlocked` says whether `Get` runs its callback after releasing the store lock (it does since
+  94ab97c; before, a callback that writes to the store deadlocked); the harness probes it. The variant
+  of the batch with `DeleteRange` recorded as a range is `mem2Impl` in ModelRange.lean; `db.BufferBatch`
+  and `CalculatePrefixSize` are in ModelBuf.lean.
 * `pebImpl` — a transcription of the Pebble wrappers `db/pebblev2/{db,batch,iterator,snapshot}.go`
   (`db/pebble/*` is the same text) over an abstract engine (`E*`: ordered map, batch = op log with an
   `indexed` flag, iterator with lower/upper bound and raw `First/Next/Prev/SeekGE`, errors
